@@ -918,7 +918,14 @@ def common_blockdim(blockdims):
         return ()
     non_trivial_dims = {d for d in blockdims if len(d) > 1}
     if len(non_trivial_dims) == 1:
-        return first(non_trivial_dims)
+        dim = first(non_trivial_dims)
+        if np.isnan(sum(dim)) and any(d != dim for d in blockdims):
+            # A single-chunk operand cannot be aligned with blocks of unknown
+            # size (it would be paired whole with every block).
+            raise ValueError(
+                f"Arrays' chunk sizes ({blockdims}) are unknown.\n\nA possible solution:\n  x.compute_chunk_sizes()"
+            )
+        return dim
     if len(non_trivial_dims) == 0:
         return max(blockdims, key=first)
 
